@@ -3,8 +3,9 @@
 code -> spec: the real JobControl + ScriptJob + Machine + Clock run on real threads under the
 deterministic scheduler with virtual time, over SimLan.  Script shapes: straight-line, infinite
 repeat, timed (1 s and 1000 s delays), time-of-day wait.  A requester thread issues stop_job /
-stop_current / stop-all (clear_queue, stop_current, stop_background - what WebApp.stop_all does)
-  - systematically at EVERY scheduling point of a reference run after the job thread entered
+stop_current / stop-all through the web layer's own entry points (WebApp.stop_script / stop_current / stop_all)
+  - systematically at EVERY scheduling point (once undisturbed, and at every other point racing with the
+    job and clock threads under a seeded random continuation) of a reference run after the job thread entered
     execute() (switch points: every source line of job_control.py, script_job.py, machine.py,
     clock.py and every lock/event/sleep operation), and
   - at random points of seeded random-walk schedules;
@@ -45,7 +46,29 @@ class NoteRecorder(simlan.Recorder):
             self.on_cmd(event[1])
 
 
-def scenario(policy, shape, kind, inject_at=None, line_level=True, requester=True):
+class ReplayThenWalk:
+    """The reference schedule up to the injection point, a seeded random walk afterwards: the stop request races
+    with the job thread and the clock thread."""
+
+    def __init__(self, prefix, upto, seed):
+        self.replay, self.upto, self.walk = detsched.Replay(prefix), upto, detsched.RandomWalk(seed, 0.35)
+        self.rng = None
+
+    def choose(self, ids, prev, step):
+        return self.replay.choose(ids, prev, step) if step < self.upto else self.walk.choose(ids, prev, step)
+
+
+def web_app(world):
+    """The web layer's stop entry points over a JobControl built under the scheduler (no manifest is loaded)."""
+    try:
+        import web.web_app as web_mod
+        web_mod.JobControl = world.jc_mod.JobControl
+        return web_mod.WebApp()
+    except Exception:
+        return None
+
+
+def scenario(policy, shape, kind, inject_at=None, line_level=True, requester=True, prio=True):
     """One execution.  Returns sched with .events (for TraceStop) and .meta."""
     sched = detsched.Sched(policy, trace_files=rtworld.TRACE_FILES if line_level else (), max_steps=12000)
     world = rtworld.RtWorld(sched, POP, tick=TICK)
@@ -60,7 +83,10 @@ def scenario(policy, shape, kind, inject_at=None, line_level=True, requester=Tru
         world.net.rec = NoteRecorder(on_cmd)
         for dev in world.net.devices:
             pass
-        control = world.jc_mod.JobControl()
+        app = web_app(world)
+        control = getattr(app, '_jobs', None)
+        if not isinstance(control, world.jc_mod.JobControl):
+            app, control = None, world.jc_mod.JobControl()
         gate = object()
 
         class TJob(ScriptJob):
@@ -121,9 +147,11 @@ def scenario(policy, shape, kind, inject_at=None, line_level=True, requester=Tru
             sched.block(gate)
             events.append({'e': 'stop_call', 'k': kind, 'name': 'a', 'cur': current_run()})
             if kind == 'job':
-                control.stop_job('a')
+                app.stop_script('a') if app is not None else control.stop_job('a')
             elif kind == 'current':
-                control.stop_current()
+                app.stop_current() if app is not None else control.stop_current()
+            elif app is not None:
+                app.stop_all()
             else:
                 control.clear_queue()
                 control.stop_current()
@@ -149,7 +177,7 @@ def scenario(policy, shape, kind, inject_at=None, line_level=True, requester=Tru
                         (inject_at is None or s.steps >= inject_at):
                     if inject_at is not None or policy_wants_stop(s):
                         s.wake(gate)
-                        s.priority = req.tid
+                        s.priority = req.tid if prio else None
             def policy_wants_stop(s):
                 rng = getattr(policy, 'rng', None)
                 return rng is None or rng.random() < 0.02
@@ -174,9 +202,13 @@ def task(args):
         ref_steps = ref.steps if ref is not None else 700
         prefix = [c[1] for c in ref.choices] if ref is not None else []
         points = list(range(0, min(ref_steps, 900), stride))[:budget]
-        for at in points:
+        for idx, at in enumerate(points):
             sched = scenario(detsched.Replay(prefix), shape, kind, inject_at=at)
             out.append((shape, kind, 'inject@%d' % at, [c[1] for c in sched.choices][:400], sched.events, sched.meta))
+            if idx % 2 == 0:
+                # the same point, but the request races with the other threads instead of running undisturbed
+                sched = scenario(ReplayThenWalk(prefix, at, seed * 1000 + at), shape, kind, inject_at=at, prio=False)
+                out.append((shape, kind, 'race@%d' % at, [c[1] for c in sched.choices][:400], sched.events, sched.meta))
     else:
         rng = random.Random(seed)
         for _ in range(budget):
@@ -194,7 +226,7 @@ def run(report, replay=None):
     tasks = []
     for shape in SHAPES:
         for kind in ('job', 'current', 'all'):
-            tasks.append((shape, kind, 'inject', budget, 0, stride))
+            tasks.append((shape, kind, 'inject', budget, rng.randrange(2 ** 20), stride))
             tasks.append((shape, kind, 'random', walks, rng.randrange(2 ** 30), 0))
     import multiprocessing
     batch, meta = [], {}
